@@ -24,7 +24,14 @@ type Parser struct {
 
 	// operandStack holds the operands seen since the last operator
 	operandStack []core.Object
+
+	// depth is the current nesting depth of arrays and dictionaries
+	depth int
 }
+
+// maxNestingDepth bounds the nesting of arrays and dictionaries in operands;
+// deeper nesting only occurs in damaged or hostile streams.
+const maxNestingDepth = 256
 
 // NewParser creates a new content stream parser for the given data.
 func NewParser(data []byte) *Parser {
@@ -448,6 +455,12 @@ func (p *Parser) parseArray() (core.Object, error) {
 	}
 	p.pos++ // skip '['
 
+	if p.depth >= maxNestingDepth {
+		return nil, fmt.Errorf("arrays and dictionaries nested deeper than %d levels", maxNestingDepth)
+	}
+	p.depth++
+	defer func() { p.depth-- }()
+
 	var arr core.Array
 
 	for p.pos < len(p.data) {
@@ -480,10 +493,20 @@ func (p *Parser) parseDict() (core.Object, error) {
 	}
 	p.pos += 2 // skip '<<'
 
+	if p.depth >= maxNestingDepth {
+		return nil, fmt.Errorf("arrays and dictionaries nested deeper than %d levels", maxNestingDepth)
+	}
+	p.depth++
+	defer func() { p.depth-- }()
+
 	dict := make(core.Dict)
 
 	for p.pos < len(p.data) {
 		p.skipWhitespaceAndComments()
+
+		if p.pos >= len(p.data) {
+			return nil, fmt.Errorf("unclosed dictionary")
+		}
 
 		if p.pos+1 < len(p.data) && p.data[p.pos] == '>' && p.data[p.pos+1] == '>' {
 			p.pos += 2
